@@ -27,6 +27,8 @@ MARKETS = {
     'gap': {'AAA': ('zigzag', '41.37'), 'BBB': ('rising', '103.11'), 'CCC': ('falling', '17.93')},
     # rows exist from the first day but their price cells are blank until the asset's first quote
     'blankstart': {'AAA': ('falling', '41.37'), 'BBB': ('zigzag', '103.11'), 'CCC': ('rising', '17.93')},
+    # bars with zero traded volume (halted / illiquid days) are bars like any other
+    'zerovol': {'AAA': ('rising', '41.37'), 'BBB': ('gapdown', '103.11'), 'CCC': ('zigzag', '17.93')},
 }
 
 
@@ -38,6 +40,10 @@ def base_market(name):
         rows[i] = (rows[i][0], None, rows[i][2])         # a missing open
         rows2 = m['CCC']
         rows2[i + 1] = (rows2[i + 1][0], rows2[i + 1][1], None)   # a missing close
+    if name == 'zerovol':
+        k = len(PRE)
+        m['BBB'] = [(d, o, c, 0 if k + 2 <= i <= k + 4 else 1000) for i, (d, o, c) in enumerate(m['BBB'])]
+        m['AAA'] = [(d, o, c, 0 if i in (k + 1, k + 6) else 1000) for i, (d, o, c) in enumerate(m['AAA'])]
     if name == 'blankstart':
         k = len(PRE) + 4
         m['CCC'] = [(d, None, None) if i < k else (d, o, c) for i, (d, o, c) in enumerate(m['CCC'])]
@@ -62,14 +68,14 @@ def rewrite(market, cut, how):
             fut = []
         elif h in ('x3', 'x0.25'):
             k = Fraction(3) if h == 'x3' else Fraction(1, 4)
-            fut = [(d, None if o is None else o * k, None if c is None else c * k) for d, o, c in fut]
+            fut = [(r[0], None if r[1] is None else r[1] * k, None if r[2] is None else r[2] * k) + tuple(r[3:]) for r in fut]
         elif h == 'blank':
-            fut = [(d, None, None) for d, o, c in fut]
+            fut = [(r[0], None, None) + tuple(r[3:]) for r in fut]
         elif h == 'const':
-            fut = [(d, Fraction(1), Fraction(1)) for d, o, c in fut]
+            fut = [(r[0], Fraction(1), Fraction(1)) + tuple(r[3:]) for r in fut]
         elif h == 'reverse':
-            vals = [(o, c) for d, o, c in fut][::-1]
-            fut = [(d, v[1], v[0]) for (d, _, _), v in zip(fut, vals)]
+            vals = [(r[1], r[2]) for r in fut][::-1]
+            fut = [(r[0], v[1], v[0]) + tuple(r[3:]) for r, v in zip(fut, vals)]
         out[sym] = past + fut
     return out
 
@@ -197,7 +203,7 @@ def item_eval(item):
 
 def items(tier):
     cfgs = configs(tier)
-    markets = ['m0', 'late', 'hole', 'gap', 'blankstart'] if tier == 'quick' else list(MARKETS)
+    markets = ['m0', 'late', 'hole', 'gap', 'blankstart', 'zerovol'] if tier == 'quick' else list(MARKETS)
     rewrites = ['remove', 'x3', 'reverse', 'blank'] if tier == 'quick' else REWRITES
     cuts = [c.isoformat() for c in CUTS]
     size = 10 if tier == 'quick' else 25
